@@ -15,7 +15,7 @@ RULE = (
 ASSUMPTIONS = [
     "small untrained AttentionModelPolicy in eval mode; widths 2..number of nodes (PDP: up to the number of pickups)",
     "ties between expansion scores within 1e-5 accept any of the tied expansions",
-    "replayed per-step log-probs are compared within 1e-3 (float32 noise between batch layouts reaches 2e-4 on unscaled CVRPTW features; a parent mix-up changes them by O(0.1))",
+    "replayed per-step log-probs are compared within 1e-4 + 8 ulp of the largest raw logit of the call (unscaled CVRPTW logits reach 5e3, i.e. 4e-3 of slack; everywhere else the slack stays ~1e-4); a parent mix-up changes them by O(0.1)",
     "OP is run on instances where every customer is a feasible first move (the start rule is a recorded C12 finding)",
 ]
 REQUIRED_COUNTERS = ["c13_beam_calls", "c13_topk_audits", "c13_beams_checked", "c13_replays", "c13_best_taps", "c13_best_rows"]
